@@ -182,8 +182,40 @@ def model_configs(tier):
     return q
 
 
+def delivery_model(chk, tier, sig):
+    """C12 / C10: Delivery.tla (add_signal under the id table's lock, rejected adds poisoning it, owners
+    dropped on any thread) with AddAtomic read off the solo signature of add_signal."""
+    add = sig.get("add") or []
+    locks = [i for i, x in enumerate(add) if x[0] == "lock" and x[1] == "idsmtx"]
+    unlocks = [i for i, x in enumerate(add) if x[0] == "unlock" and x[1] == "idsmtx"]
+    reg = [i for i, x in enumerate(add) if x[1].startswith("D.") or x[1].startswith("F.")]
+    if len(locks) == 1 and len(unlocks) == 1 and reg and locks[0] < min(reg) and max(reg) < unlocks[0]:
+        atomic = True
+    elif len(locks) >= 2 and reg and any(u < min(reg) for u in unlocks):
+        atomic = False
+    else:
+        chk.note("model stale for add_signal: the id table's lock could not be located in its solo signature")
+        return
+    chk.params["add_signal"] = {"AddAtomic": atomic}
+    T = tier == "thorough"
+    script = ('@[t \\in {1,2,3} |-> IF t = 1 THEN <<<<"add",12>>, <<"bad",9>>, <<"add",14>>, <<"drop">>>> '
+              'ELSE IF t = 2 THEN <<<<"add",12>>, <<"add",14>>' + (', <<"add",12>>' if T else '') + ', <<"drop">>>> '
+              'ELSE <<<<"bad",200>>, <<"add",14>>, <<"drop">>>>]')
+    r = chk.model_check("Delivery.tla", dict(Threads={1, 2, 3}, Script=script, Sigs={12, 14}, AddAtomic=atomic,
+                                             LastOwner="arc"),
+                        invariants=["NoDoubleRegistration", "NothingLeft", "TableNamesLive"], workers=4,
+                        what="3 owners on 3 threads: adds of 2 signals (incl. re-adds and rejected adds poisoning "
+                             "the lock) racing each other and the drops; AddAtomic as extracted",
+                        expect=["A_Register", "A_Record", "D_Unreg"])
+    if r.violation:
+        chk.model_violation(r, "add_signal / drop as extracted", {"AddAtomic": atomic})
+
+
 def run_model(chk, tier):
     pid = chk.pid
+    if pid in ("C12", "C10"):
+        sig0, _, _ = harness("iterator", "--signature")
+        delivery_model(chk, tier, sig0)
     if pid not in MODEL_INV:
         return
     consts, stale, sig = extract_params()
